@@ -1,6 +1,7 @@
 package main
 
 import (
+	"os"
 	"fmt"
 	"go/types"
 	"strings"
@@ -353,6 +354,9 @@ func rebuild(proto Val, l []string) (Val, []string) {
 func eqLeaves(a, b Val) string {
 	la, lb := flatten(a), flatten(b)
 	if len(la) != len(lb) {
+		if os.Getenv("GVC_DEBUG") != "" {
+			fmt.Fprintf(os.Stderr, "eqLeaves: shapes differ: %T %v vs %T %v\n", a, la, b, lb)
+		}
 		return "false"
 	}
 	var cs []string
